@@ -16,6 +16,7 @@ import (
 	"log"
 	"os"
 	"runtime/debug"
+	"strings"
 	"time"
 	"unicode/utf8"
 )
@@ -101,6 +102,19 @@ func tabResult(res []tabular.TabularOutputResult, err tree.ParsingError) Resp {
 		hdrs = append(hdrs, x.HeaderSymbols)
 	}
 	return withOut(Resp{"err": err.ErrorCode, "rows": rows, "hdr": hdrs}, out)
+}
+
+func showPint(n *tree.Node) string {
+	if n == nil {
+		return "nil"
+	}
+	if n.IsEmptyOrNilNode() {
+		return "E"
+	}
+	if n.Left == nil && n.Right == nil && n.LogicalOperator == "" {
+		return "L<" + fmt.Sprint(n.Entry) + ">"
+	}
+	return "C(" + n.LogicalOperator + " " + showPint(n.Left) + " " + showPint(n.Right) + " sl=[" + strings.Join(n.SharedLeft, ";") + "] sr=[" + strings.Join(n.SharedRight, ";") + "])"
 }
 
 func handle(r *Req) (resp Resp) {
@@ -224,6 +238,13 @@ func handle(r *Req) (resp Resp) {
 		resp["perr"] = perr.ErrorCode
 		resp["nodes"] = d
 		return resp
+	case "pint":
+		// the combination parser alone: outcome class and node tree in the notation of ocaml/comborun.ml
+		n, _, err := parser.ParseIntoNodeTree(r.Stmt, false, "(", ")")
+		if err.ErrorCode == tree.PARSING_NO_ERROR || err.ErrorCode == tree.PARSING_ERROR_NO_COMBINATIONS {
+			return Resp{"res": err.ErrorCode + " " + showPint(n)}
+		}
+		return Resp{"res": err.ErrorCode}
 	case "fn":
 		return handleFn(r)
 	}
